@@ -22,6 +22,7 @@ type level struct {
 	defs    map[string][]bItem // top-level block definitions
 	order   []string           // order of definition
 	outside []string           // text outside blocks (non-base levels: must not be rendered)
+	extPos  int                // number of top-level block definitions that stand in front of the extends tag
 }
 
 type chainCase struct {
@@ -29,6 +30,8 @@ type chainCase struct {
 	layout []bItem // base layout: text / block / wrapped block
 	wraps  map[string]string
 	dyn    bool
+	// levels (other than the base) whose block bodies hold a nested block
+	nestedAt []int
 }
 
 func (cc *chainCase) bodySrc(items []bItem) string {
@@ -65,12 +68,18 @@ func (cc *chainCase) templates() map[string]string {
 			if len(lv.outside) > 0 {
 				sb.WriteString(lv.outside[0])
 			}
-			sb.WriteString("{% extends " + parent + " %}")
+			// the extends tag stands in front of, between or behind the block definitions of its template
 			for j, b := range lv.order {
+				if j == lv.extPos {
+					sb.WriteString("{% extends " + parent + " %}")
+				}
 				if j+1 < len(lv.outside) {
 					sb.WriteString(lv.outside[j+1])
 				}
 				sb.WriteString("{% block " + b + " %}" + cc.bodySrc(lv.defs[b]) + "{% endblock %}")
+			}
+			if lv.extPos >= len(lv.order) {
+				sb.WriteString("{% extends " + parent + " %}")
 			}
 		} else {
 			sb.WriteString(cc.bodySrc(cc.layout))
@@ -201,12 +210,111 @@ func genChain(e *Env, nLevels, nBlocks int, pickChoice func() int) *chainCase {
 			}
 		}
 	}
+	// blocks nested in the bodies of the other levels too (not only in the base layout), under names that the
+	// base layout or another level also nests and that more derived levels override
+	if k >= 1 && rg.Intn(3) == 0 {
+		cc.nestInLevels(e, blocks)
+	}
+	// position of the extends tag among the top-level block definitions of each extending template
+	for i := 0; i < k; i++ {
+		lv := &cc.levels[i]
+		if len(lv.order) > 0 && rg.Intn(3) == 0 {
+			lv.extPos = 1 + rg.Intn(len(lv.order))
+		}
+	}
 	return cc
+}
+
+// nestInLevels puts a block X inside the body of a block definition of one or two extending levels (plainly, in a
+// loop or in a condition). X is a name the base layout nests as well, or a name that only the levels nest. A nested
+// block is not a definition of its template: the definitions of X at more derived levels override every occurrence
+// where it stands, and parent() there reaches the default body of the occurrence being rendered. No level at or
+// below the most derived occurrence defines X at top level (one template never holds X twice).
+func (cc *chainCase) nestInLevels(e *Env, blocks []string) {
+	rg := e.Rng
+	k := len(cc.levels) - 1
+	cands := []string{"item"}
+	enclosing := append([]string{}, blocks...)
+	for _, it := range cc.layout {
+		switch {
+		case it.kind == "forblock" || it.kind == "ifblock":
+			cands = append(cands, it.name)
+		case it.kind == "block" && strings.HasPrefix(it.name, "wrap"):
+			cands = append(cands, it.body[1].name)
+			enclosing = append(enclosing, it.name)
+		}
+	}
+	x := pick(rg, cands)
+	m := rg.Intn(k)
+	occ := []int{m}
+	if m+1 < k && rg.Intn(2) == 0 {
+		occ = append(occ, m+1+rg.Intn(k-m-1))
+	}
+	for i := m; i < k; i++ {
+		lv := &cc.levels[i]
+		if _, has := lv.defs[x]; has {
+			delete(lv.defs, x)
+			var order []string
+			for _, b := range lv.order {
+				if b != x {
+					order = append(order, b)
+				}
+			}
+			lv.order = order
+		}
+	}
+	if x == "item" {
+		for i := 0; i < m; i++ {
+			lv := &cc.levels[i]
+			switch rg.Intn(4) {
+			case 0:
+				continue
+			case 1:
+				lv.defs[x] = []bItem{{kind: "text", text: fmt.Sprintf("%s@%d", x, i)}}
+			case 2:
+				lv.defs[x] = []bItem{}
+			default:
+				lv.defs[x] = []bItem{{kind: "text", text: fmt.Sprintf("%s@%d[", x, i)}, {kind: "parent"}, {kind: "text", text: "]"}}
+			}
+			lv.order = append(lv.order, x)
+		}
+	}
+	var ys []string
+	for _, y := range enclosing {
+		if y != x {
+			ys = append(ys, y)
+		}
+	}
+	if len(ys) == 0 {
+		return
+	}
+	for _, j := range occ {
+		lv := &cc.levels[j]
+		y := pick(rg, ys)
+		body, has := lv.defs[y]
+		if !has {
+			body = []bItem{{kind: "text", text: fmt.Sprintf("%s@%d:", y, j)}, {kind: "parent"}, {kind: "text", text: ";"}}
+			lv.order = append(lv.order, y)
+		}
+		inner := []bItem{{kind: "text", text: fmt.Sprintf("%s~%d", x, j)}}
+		if rg.Intn(3) == 0 {
+			inner = append(inner, bItem{kind: "var", name: "who"})
+		}
+		nested := bItem{kind: pick(rg, []string{"block", "block", "forblock", "ifblock"}), name: x, body: inner}
+		at := rg.Intn(len(body) + 1)
+		nb := append([]bItem{}, body[:at]...)
+		nb = append(nb, nested)
+		nb = append(nb, body[at:]...)
+		lv.defs[y] = nb
+		cc.nestedAt = append(cc.nestedAt, j)
+	}
 }
 
 func runC10(e *Env) error {
 	r := e.Rep
 	r.Rule = "extends chains of 1–5 levels; each non-base level independently omits / defines / blanks / defines-with-parent() each of 1–3 blocks (all 4^(levels×blocks) assignments for ≤ 3 levels × ≤ 2 blocks, sampled beyond), base layout places blocks at top level, nested in a block, inside for and if; " +
+		"block bodies of one or two extending levels nest a block (plain, in for, in if) under a name the base layout nests too or that only the levels nest, overridden with and without parent() further down; " +
+		"the extends tag of each extending template in front of, between or behind its block definitions; " +
 		"static and computed parent names; text and prints outside blocks in children; oracle = an independent substitution spec written in the harness (implementation-only) and the Lean pipeline model; non-trivial = at least 2 levels and one override; distinct by template set"
 	ctx := map[string]any{"who": "W", "t": true}
 	runOne := func(cc *chainCase, tag string) error {
@@ -224,6 +332,17 @@ func runC10(e *Env) error {
 		}
 		r.Seen(tag+key, len(cc.levels) >= 2 && overrides > 0)
 		r.Hit(fmt.Sprintf("levels:%d", len(cc.levels)))
+		for _, lv := range cc.levels {
+			if lv.extPos > 0 {
+				r.Hit("block-in-front-of-extends")
+				if lv.extPos >= len(lv.order) {
+					r.Hit("extends-tag-last")
+				}
+			}
+		}
+		if len(cc.nestedAt) > 0 {
+			r.Hit(fmt.Sprintf("nested-block-in-%d-extending-levels", len(cc.nestedAt)))
+		}
 		if specOk {
 			if im.Class != "" || im.Out != want {
 				r.Violate(Violation{Key: "substitution-wrong", What: fmt.Sprintf("chain of %d levels renders %q (%s), block substitution gives %q", len(cc.levels), truncate(im.Out, 120), im.Class, truncate(want, 120)),
